@@ -19,7 +19,7 @@ Proof. exact string_escape_roundtrip. Qed.
 Print Assumptions C15_string_escape.
 
 (* The echo of every printable expression (any depth; all operators, calls, callables,
-   conditionals, field access, strings, temperature sugar) is accepted by the parser and read
+   conditionals, field access, list and struct literals, strings, temperature sugar) is accepted by the parser and read
    back as the tree its concrete syntax denotes. *)
 Theorem C15_roundtrip_partial : forall e : texpr,
   printable_t e = true -> parse (pp e) = Ok [reread e] [].
@@ -36,8 +36,7 @@ Print Assumptions C15_roundtrip_exact.
 (* NOT PROVED (partial): (1) for the temperature sugar forms `reread e` equals `erase e` only up
    to numbat's elaboration of `x °C` / `x -> °C` (not modelled); (2) the echo is a fixed point
    (pp of the re-elaborated tree = pp e); (3) statements (let/fn/unit/dimension/struct with
-   types and decorators), struct and list literals and interpolated strings are not in the
-   printer model.  All three are checked on the implementation by the echo oracle. *)
+   types and decorators) and interpolated strings are not in the printer model.  All three are checked on the implementation by the echo oracle. *)
 Definition C15_full : Prop :=
   forall e : texpr, printable_t e = true ->
   exists u, parse (pp e) = Ok [u] [] /\ forall e', erase e' = u -> pp e' = pp e.
@@ -79,4 +78,13 @@ Example C15_ex_sugar_and_negative_exponent :
   /\ parse (pp (XNeg fc)) = Ok [EUn Negate (ECall (EIdent n_from_celsius) [EScalar [53]%N])] []
   /\ pp (XBin Power (n_ 55) (XScalar true [49]%N))
      = [TNumber [55]; TPower; TLParen; TMinus; TNumber [49]; TRParen]%N.
+Proof. vm_compute. repeat split; reflexivity. Qed.
+
+(* struct and list literals: Pt { x: [1, a + b], y: [] }.x *)
+Example C15_ex_struct_list :
+  let e := XField (XStruct [80; 116] [([120], XList [n_ 49; XBin Add (x_ 97) (x_ 98)]); ([121], XList [])]) [120] in
+  printable_t e = true /\ exact_t e = true
+  /\ pp e = [TIdent [80; 116]; TLCurly; TIdent [120]; TColon; TLBracket; TNumber [49]; TComma; TIdent [97]; TPlus;
+            TIdent [98]; TRBracket; TComma; TIdent [121]; TColon; TLBracket; TRBracket; TRCurly; TPeriod; TIdent [120]]
+  /\ parse (pp e) = Ok [erase e] [].
 Proof. vm_compute. repeat split; reflexivity. Qed.
